@@ -198,15 +198,22 @@ Proof.
     rewrite <- E. apply walk_view; [exact Hw|rewrite E; discriminate].
 Qed.
 
-Lemma reverse_view m s : WfRing m -> pm_reverse m s = l1_reverse (abs m) s.
+Lemma reverse_raw_view m s : WfRing m -> pm_reverse_raw m s = l1_reverse_raw (abs m) s.
 Proof.
-  intros Hw. unfold pm_reverse, l1_reverse, abs, is_nil; cbn [l_nil l_delta l_view].
+  intros Hw. unfold pm_reverse_raw, l1_reverse_raw, abs, is_nil; cbn [l_nil l_delta l_view].
   destruct (m_entries m) as [es|] eqn:E; [|reflexivity].
   destruct es as [|e es].
   - exfalso. destruct Hw as (_ & _ & H). apply H. exact E.
   - replace (zlen (e :: es) =? 0) with false by (unfold zlen; cbn [length]; lia).
     assert (He : entries_of m = e :: es) by (unfold entries_of; rewrite E; reflexivity).
     rewrite <- He. f_equal. apply walk_view; [exact Hw|rewrite He; discriminate].
+Qed.
+
+Lemma reverse_view m s : WfRing m -> pm_reverse m s = l1_reverse (abs m) s.
+Proof.
+  intros Hw. unfold pm_reverse, l1_reverse. rewrite (reverse_raw_view m s Hw).
+  destruct (l1_reverse_raw (abs m) s) as [[ok s'] p'].
+  unfold pm_recent, l1_recent, abs; cbn [l_started l_next]. reflexivity.
 Qed.
 
 (* ---- head of the view = entry at lastEntry ---- *)
